@@ -13,9 +13,14 @@
  *   ctr <key> <nonce> <ain> <aout|i> <len,len,...> <hex>
  *                                      crypto_aesctr_init + one crypto_aesctr_stream per length
  *
+ *   insn <name> <operands as hex>...   ONE machine instruction through its intrinsic (every build; the host
+ *                                      executes all of them): ties the SDM transcription in
+ *                                      Model/CpuPaths.lean to the silicon.  Registers are 16 bytes in memory order.
+ *
  * Every buffer is an exact-size allocation whose END is the end of the block (ASan sees any
  * over-read) and whose alignment prefix is poisoned (ASan sees any under-read). */
 #include <sanitizer/asan_interface.h>
+#include <immintrin.h>
 #include "hcommon.h"
 #include "h_cpu.h"
 #include "crc32c.h"
@@ -295,6 +300,69 @@ main(void)
 			free(b);
 			free(nonce);
 			free(c);
+		} else if (hc_ntok >= 3 && strcmp(hc_tok[0], "insn") == 0) {
+			uint8_t * o[3] = { NULL, NULL, NULL };
+			size_t ol[3] = { 0, 0, 0 };
+			uint8_t r[16];
+			__m128i x, y, z;
+			int nops = hc_ntok - 2, ok = 0;
+			const char * nm = hc_tok[1];
+
+			for (i = 0; i < nops && i < 3; i++)
+				o[i] = hc_unhex(hc_tok[2 + i], &ol[i]);
+			printf("insn |");
+			if (strcmp(nm, "crc32") == 0 && nops == 2 && ol[0] == 4 &&
+			    (ol[1] == 1 || ol[1] == 4 || ol[1] == 8)) {
+				uint32_t st = le32dec(o[0]);
+
+				if (ol[1] == 1)
+					st = _mm_crc32_u8(st, o[1][0]);
+				else if (ol[1] == 4)
+					st = _mm_crc32_u32(st, le32dec(o[1]));
+				else
+					st = (uint32_t)_mm_crc32_u64(st, le64dec(o[1]));
+				printf(" %08x", st);
+				ok = 1;
+			} else if (nops >= 1 && ol[0] == 16 && (nops < 2 || ol[1] == 16) &&
+			    (nops < 3 || ol[2] == 16)) {
+				x = _mm_loadu_si128((const __m128i *)o[0]);
+				y = (nops >= 2) ? _mm_loadu_si128((const __m128i *)o[1]) : x;
+				z = (nops >= 3) ? _mm_loadu_si128((const __m128i *)o[2]) : x;
+				ok = 1;
+				if (strcmp(nm, "rnds2") == 0 && nops == 3)
+					x = _mm_sha256rnds2_epu32(x, y, z);
+				else if (strcmp(nm, "msg1") == 0 && nops == 2)
+					x = _mm_sha256msg1_epu32(x, y);
+				else if (strcmp(nm, "msg2") == 0 && nops == 2)
+					x = _mm_sha256msg2_epu32(x, y);
+				else if (strcmp(nm, "srli64_17") == 0 && nops == 1)
+					x = _mm_srli_epi64(x, 17);
+				else if (strcmp(nm, "srli64_19") == 0 && nops == 1)
+					x = _mm_srli_epi64(x, 19);
+				else if (strcmp(nm, "alignr4") == 0 && nops == 2)
+					x = _mm_alignr_epi8(x, y, 4);
+				else if (strcmp(nm, "aesenc") == 0 && nops == 2)
+					x = _mm_aesenc_si128(x, y);
+				else if (strcmp(nm, "aesenclast") == 0 && nops == 2)
+					x = _mm_aesenclast_si128(x, y);
+				else if (strcmp(nm, "keygen01") == 0 && nops == 1)
+					x = _mm_aeskeygenassist_si128(x, 0x01);
+				else if (strcmp(nm, "keygen1b") == 0 && nops == 1)
+					x = _mm_aeskeygenassist_si128(x, 0x1b);
+				else if (strcmp(nm, "keygen00") == 0 && nops == 1)
+					x = _mm_aeskeygenassist_si128(x, 0x00);
+				else
+					ok = 0;
+				if (ok) {
+					_mm_storeu_si128((__m128i *)r, x);
+					putchar(' ');
+					hc_puthex(r, 16);
+				}
+			}
+			if (!ok)
+				printf(" bad-insn");
+			for (i = 0; i < 3; i++)
+				free(o[i]);
 		} else {
 			printf("bad-op");
 		}
